@@ -1,7 +1,7 @@
 // C09: reported regions agree with evaluation; generator stream under skip scripts; find_terminal; path_to_node.
 #[path = "../common.rs"]
 mod common;
-use affinitree::linalg::affine::Polytope;
+use affinitree::linalg::affine::{AffFunc, Polytope};
 use affinitree::pwl::afftree::AffTree;
 use common::*;
 use affinitree::pwl::node::NodeState;
@@ -12,7 +12,8 @@ fn sx_polys(ps: &[Polytope]) -> String {
     format!("({})", v.join(" "))
 }
 
-fn one_case(r: &mut Rng, id: usize, out: &mut String) {
+/// the tree of one case (both case kinds draw it the same way): (tree, input dimension, wide magnitudes?)
+fn gen_case_tree(r: &mut Rng) -> (AffTree<2>, usize, bool) {
     let n = 1 + r.below(3);
     let m = 1 + r.below(2);
     let cfg = TreeCfg {
@@ -58,6 +59,11 @@ fn one_case(r: &mut Rng, id: usize, out: &mut String) {
             t.tree.node_value_mut(i).unwrap().state = st;
         }
     }
+    (t, n, wide)
+}
+
+fn one_case(r: &mut Rng, id: usize, out: &mut String) {
+    let (t, _n, wide) = gen_case_tree(r);
     let size = t.len();
     // script of Next / Skip commands; repeated skips with small probability
     let len = size + 2 + r.below(size + 1);
@@ -141,6 +147,77 @@ fn one_case(r: &mut Rng, id: usize, out: &mut String) {
     out.push_str(&format!("(case {} regions {} (script {}) {} {} {} {})\n", id, sx_tree(&t), sc.join(" "), items, it_s, ft, pn));
 }
 
+/// Second case kind: the caller rewrites the tree between two next() calls of one traversal (PolyhedraGen does not
+/// borrow the tree; AffTree::remove_axes and infeasible_elimination do exactly this).  Some Next commands that reported
+/// a decision are followed by update_node on that very node; the half-spaces reported for its children must then be
+/// those of the NEW predicate (the parent's predicate is read when the child is reported).
+/// (case id regions_upd TREE-before-the-run (script N | S | (U idx AFF) ...) (stream ...))
+fn one_case_upd(r: &mut Rng, id: usize, out: &mut String) {
+    let (mut t, n, _wide) = gen_case_tree(r);
+    let before = sx_tree(&t);
+    let size = t.len();
+    let len = size + 2 + r.below(size + 1);
+    let skip_pct = [0u32, 10, 25][r.below(3)];
+    let upd_pct = [30u32, 60, 100][r.below(3)];
+    // the random choices are drawn before the run, so that a panic inside the library cannot shift them
+    let plan: Vec<(bool, bool, usize, AffFunc)> =
+        (0..len).map(|_| (!r.chance(skip_pct, 100), r.chance(upd_pct, 100), r.below(3), gen_dec(r, 1, n, 5))).collect();
+    // the script is recorded outside the guarded run: after a panic it names the commands issued so far
+    let mut script: Vec<String> = Vec::new();
+    let mut items = String::from("(stream");
+    let res = catch(AssertUnwindSafe(|| {
+        let mut s = String::new();
+        let mut g = t.polyhedra();
+        for (is_next, do_upd, how, fresh) in &plan {
+            if *is_next {
+                script.push("N".to_string());
+                let reported = match g.next(&t.tree) {
+                    Some((data, polys)) => {
+                        s.push_str(&format!(" (item {} {} {} {})", data.depth, data.index, data.n_remaining, sx_polys(polys)));
+                        Some(data.index)
+                    }
+                    None => {
+                        s.push_str(" end");
+                        None
+                    }
+                };
+                if let Some(idx) = reported {
+                    if *do_upd && t.tree.num_children(idx) > 0 {
+                        let old = t.tree.node_value(idx).unwrap().aff.clone();
+                        let p = match *how {
+                            0 => {
+                                let mut p = old.clone();
+                                p.bias[0] += 1.0;
+                                p
+                            }
+                            1 => {
+                                let mut p = old.clone();
+                                p.mat.mapv_inplace(|v| 2.0 * v);
+                                p.bias.mapv_inplace(|v| 2.0 * v);
+                                p
+                            }
+                            _ => fresh.clone(),
+                        };
+                        script.push(format!("(U {} {})", idx, sx_aff(&p)));
+                        t.update_node(idx, p).unwrap();
+                    }
+                }
+            } else {
+                script.push("S".to_string());
+                g.skip_subtree();
+                s.push_str(" skip");
+            }
+        }
+        s
+    }));
+    match res {
+        Ok(s) => items.push_str(&s),
+        Err(_) => items.push_str(" panic"),
+    }
+    items.push(')');
+    out.push_str(&format!("(case {} regions_upd {} (script {}) {})\n", id, before, script.join(" "), items));
+}
+
 fn main() {
     silence_panics();
     let argv: Vec<String> = std::env::args().collect();
@@ -149,7 +226,11 @@ fn main() {
     let mut out = String::new();
     for id in 0..args.n {
         let mut cr = r.fork();
-        guard(id, &mut out, |out| one_case(&mut cr, id, out));
+        if id % 5 == 4 {
+            guard(id, &mut out, |out| one_case_upd(&mut cr, id, out));
+        } else {
+            guard(id, &mut out, |out| one_case(&mut cr, id, out));
+        }
     }
     print!("{}", out);
 }
